@@ -6,6 +6,7 @@ CONSTANTS
   Classes = {"field"}
   Entries = {"payload"}
   Dropped = {}
+  Lenient = {}
 INVARIANT ObsAcceptImpliesBound
 INVARIANT ObsByteMutationRejected
 CONSTRAINT Mark
